@@ -47,10 +47,12 @@ NOW_MS = 800000000000
 SIG_COLLIDE = 'C08 / CRC checked over re-encoding: value-changing flip with colliding re-encoding (BTSD bstr->tstr decodes to null)'
 SIG_SAME = 'C08 / CRC checked over re-encoding: value-preserving non-canonical item (true/false/array-of-ints/... read as the same uint/bstr)'
 SIG_EID = "C08 / CRC checked over re-encoding: altered EID normalised back by the text conversion (dtn SSP '/' -> '?' or '#', urlsplit drops query/fragment)"
+SIG_SWALLOW = 'C08 / CRC checked over re-encoding: block array head count raised, following block swallowed as an ignored extra item (bundle accepted without it)'
+SIG_TYPE0 = 'C08 / CRC checked over re-encoding: CRC type flipped to 0, left-over CRC item ignored (block accepted unchecked)'
 # Genuine defects reported to the coordinator that are possibly not (yet) in known_findings.json: printed as
 # PENDING-FINDING without failing the run; once listed they are ordinary KNOWN-FINDINGs.
-PENDING_FINDINGS = []
-KNOWN_SIGS = (SIG_COLLIDE, SIG_SAME, SIG_EID)
+PENDING_FINDINGS = [SIG_SWALLOW, SIG_TYPE0]
+KNOWN_SIGS = (SIG_COLLIDE, SIG_SAME, SIG_EID, SIG_SWALLOW, SIG_TYPE0)
 CORPUS = os.path.join(VERIF, 'harness', 'corpus', 'C08_reencoding_witnesses.json')
 
 CRC_W = {1: 2, 2: 4}
@@ -236,7 +238,7 @@ def eid_blind(spec):
     return out
 
 
-def classify_accept(orig, bad):
+def classify_accept(orig, bad, off):
     ''' Why did the agent accept octets whose CRC an independent receiver finds wrong?
     :return: (signature or None, text) '''
     rv_bad = real_view(bad)
@@ -254,9 +256,40 @@ def classify_accept(orig, bad):
         return (None, 're-encoding = original octets although non-EID fields differ')
     if reenc == bad:
         return (None, 'canonical corruption (re-encoding = received octets) passes the CRC check')
-    if indep_verdict(reenc) == 'ok':
-        return (SIG_COLLIDE, 'decoded values differ; CRC of the re-encoding %s collides with the stored value' % reenc.hex())
-    return (None, 're-encoding %s is neither the original nor the received octets and its CRC is wrong' % reenc.hex())
+    try:
+        v_orig = block_views(orig)
+        v_re = block_views(reenc)
+    except Exception as err:
+        return (None, 're-encoding %s is not a block sequence (%s)' % (reenc.hex(), err.__class__.__name__))
+    hit = [ent['idx'] for ent in v_orig if ent['start'] <= off < ent['end']]
+    if not hit:
+        return (None, 'corruption outside every block')
+    idx = hit[0]
+    re_ok = all(not ent['problems'] for ent in v_re)
+    if len(v_re) < len(v_orig):
+        # is the re-encoding the original with some blocks (after the corrupted one) missing?
+        left = [ent['octets'] for ent in v_orig]
+        pos = 0
+        kept = []
+        for ent in v_re:
+            while pos < len(left) and left[pos] != ent['octets']:
+                pos += 1
+            if pos == len(left):
+                kept = None
+                break
+            kept.append(pos)
+            pos += 1
+        if kept is not None and idx in kept:
+            lost = [num for num in range(len(left)) if num not in kept]
+            return (SIG_SWALLOW, 'block(s) #%s of the original are missing from what the agent decoded (re-encoding %s); the corrupted block #%d re-encodes to its original octets'
+                    % (lost, reenc.hex(), idx))
+        return (None, 're-encoding %s has fewer blocks than the original' % reenc.hex())
+    if len(v_re) == len(v_orig) and re_ok:
+        if v_re[idx]['ctype'] == 0 and v_orig[idx]['ctype'] in (1, 2):
+            return (SIG_TYPE0, 'block #%d decoded with CRC type 0 (was %d): nothing is checked; re-encoding %s' % (idx, v_orig[idx]['ctype'], reenc.hex()))
+        if v_re[idx]['ctype'] in (1, 2) and v_re[idx]['octets'] != v_orig[idx]['octets']:
+            return (SIG_COLLIDE, 'decoded values differ; CRC of the re-encoded block #%d %s collides with the stored value' % (idx, v_re[idx]['octets'].hex()))
+    return (None, 're-encoding %s is neither the original nor the received octets and fits no known class' % reenc.hex())
 
 
 def apply_xor(raw, off, xs):
@@ -275,7 +308,7 @@ def judge_rx(orig, off, xs):
     if res['effects']:
         out['indep'] = indep_verdict(bad)
         if out['indep'] != 'ok':
-            (sig, text) = classify_accept(orig, bad)
+            (sig, text) = classify_accept(orig, bad, off)
             out['sig'] = sig or ('C08 / corrupted CRC-protected block not dropped: %s' % text.split(':')[0].split('(')[0].strip())
             out['what'] = ('xor %s at octet %d of %s: independent receiver: %s; agent: %s (%s); %s'
                            % (bytes(xs).hex(), off, orig.hex(), out['indep'], ', '.join(res['effects']), res['surface'], text))
@@ -517,22 +550,61 @@ def hunt_tstr16(limit):
     return (tried, hits)
 
 
-def hunt_nonshortest16(limit):
-    ''' The gap named in DESIGN.md: block number 0x18 0x28 (40) -> 0x18 0x08 (one bit): cbor2 reads the
-    non-shortest 8, the block re-encodes one octet shorter; search payloads for a CRC-16 coincidence. '''
+def _step16(state, octet):
+    state ^= octet
+    for _ in range(8):
+        state = (state >> 1) ^ 0x8408 if state & 1 else state >> 1
+    return state
+
+
+_T16 = [_step16(val, 0) for val in range(256)]
+
+
+def _fast16(state, octets):
+    for octet in octets:
+        state = _T16[(state ^ octet) & 0xff] ^ (state >> 8)
+    return state
+
+
+def hunt_nonshortest16_k1(limit):
+    ''' The gap as named in DESIGN.md: a one-octet argument 0x18 0x2x / 0x18 0x3x (40..55) loses bit 0x20 and
+    becomes the non-shortest 0x18 0x0x / 0x18 0x1x (8..23); cbor2 reads it, the block re-encodes ONE OCTET
+    SHORTER.  Everything after the field is common to both encodings, so the CRCs agree iff the CRC registers
+    agree right after the field; the free field must lie in front of it: the block type code 0x19 hh ll.
+    (Expected: NO hit at all - both generators are divisible by x+1 and the two spellings differ by an odd
+    number of one-bits.)  :return: (tried, [(type code, block number)]) '''
     tried = 0
     hits = []
-    for a in range(256):
-        for b in range(256):
-            for c in range(16):
-                tried += 1
-                pay = bytes([a, b, c])
-                orig = bytes([0x86, 0x09, 0x18, 0x28, 0x00, 0x01, 0x43]) + pay + b'\x42\x00\x00'
-                reenc = bytes([0x86, 0x09, 0x08, 0x00, 0x01, 0x43]) + pay + b'\x42\x00\x00'
-                if bpdrive.crc16_x25(orig) == bpdrive.crc16_x25(reenc):
-                    hits.append(pay)
-                if tried >= limit:
-                    return (tried, hits)
+    for code in range(256, 65536):
+        state = _fast16(0xFFFF, (0x86, 0x19, code >> 8, code & 0xff))
+        via18 = _fast16(state, (0x18,))
+        for num in range(40, 56):
+            tried += 1
+            if _fast16(via18, (num,)) == _fast16(state, (num - 32,)):
+                hits.append((code, num))
+            if tried >= limit:
+                return (tried, hits)
+    return (tried, hits)
+
+
+def hunt_nonshortest16(limit):
+    ''' Same gap with a two-octet argument: block number 0x19 0x01 xx (256 + xx) loses bit 0x01 of its middle
+    octet and becomes the non-shortest 0x19 0x00 xx = xx, re-encoded as 0x18 xx (or xx below 24): one or two
+    octets shorter.  Free field in front: the type code 0x19 hh ll.  About one (type code, xx) pair in 32 768
+    makes the CRC-16 registers agree.  :return: (tried, [(type code, xx)]) '''
+    tried = 0
+    hits = []
+    for code in range(256, 65536):
+        state = _fast16(0xFFFF, (0x86, 0x19, code >> 8, code & 0xff))
+        via = _fast16(state, (0x19, 0x01))
+        via18 = _fast16(state, (0x18,))
+        for low in range(256):
+            tried += 1
+            short = _fast16(via18, (low,)) if low >= 24 else _fast16(state, (low,))
+            if _fast16(via, (low,)) == short:
+                hits.append((code, low))
+            if tried >= limit:
+                return (tried, hits)
     return (tried, hits)
 
 
@@ -915,8 +987,13 @@ def main():
     hunt = {}
     (tried, hits) = hunt_tstr16(120000 if quick else 95 ** 3)
     hunt['tstr16'] = dict(tried=tried, hits=len(hits), first=[h.hex() for h in hits[:3]])
-    (tried2, hits2) = hunt_nonshortest16(200000 if quick else 256 * 256 * 16)
-    hunt['nonshortest16'] = dict(tried=tried2, hits=len(hits2), first=[h.hex() for h in hits2[:3]])
+    (tried2, hits2) = hunt_nonshortest16(200000 if quick else 4000000)
+    hunt['nonshortest16 (19 01 xx -> 19 00 xx)'] = dict(tried=tried2, hits=len(hits2), first=[list(h) for h in hits2[:3]])
+    (tried3, hits3) = hunt_nonshortest16_k1(100000 if quick else 65280 * 16)
+    hunt['nonshortest16 (18 2x -> 18 0x)'] = dict(tried=tried3, hits=len(hits3), exhaustive=(tried3 == 65280 * 16),
+                                                  note='no hit is possible: x+1 divides both generators and the two spellings differ by an odd number of one-bits')
+    if hits3:
+        chk.obligation('hunt:parity argument', False, 'a 0x18 0x2x -> 0x18 0x0x collision exists: %s' % (hits3[:2],))
     pay32 = solve_tstr32()
     hunt['tstr32'] = dict(solved=pay32 is not None, payload=pay32.hex() if pay32 else None)
     confirmed = []
@@ -925,9 +1002,9 @@ def main():
     for pay in hits[:2 if quick else 8]:
         (raw, offs) = witness_bundle(1, [block16(b'\x01', pay, b'\x43')])
         cands.append(('tstr16', raw, offs[0] + 5, b'\x20'))
-    for pay in hits2[:2 if quick else 8]:
-        (raw, offs) = witness_bundle(1, [bytes([0x86, 0x09, 0x18, 0x28, 0x00, 0x01, 0x43]) + pay + b'\x42\x00\x00', pay_blk16])
-        cands.append(('nonshortest16', raw, offs[0] + 3, b'\x20'))
+    for (code, low) in hits2[:2 if quick else 8]:
+        (raw, offs) = witness_bundle(1, [bytes([0x86, 0x19, code >> 8, code & 0xff, 0x19, 0x01, low, 0x00, 0x01, 0x43]) + b'ext' + b'\x42\x00\x00', pay_blk16])
+        cands.append(('nonshortest16', raw, offs[0] + 5, b'\x01'))
     if pay32:
         (raw, offs) = witness_bundle(2, [bytes([0x86, 1, 1, 0, 2, 0x46]) + pay32 + b'\x44\x00\x00\x00\x00'])
         cands.append(('tstr32', raw, offs[0] + 5, b'\x20'))
